@@ -411,6 +411,39 @@ fn merge_list(t: &mut Trace, l: &[CharPartition]) {
 pub fn run(t: &mut Trace, rng: &mut Rng, thorough: bool) {
     t.rule = "partitions built through the real constructors (new/from_set/push/try_from_list/try_from_iter): ALL partitions over the 7 end points {0,1,2,3,MAX-2,MAX-1,MAX} (610), each queried at ALL characters and ALL sets [a,b] over its cut points +-1 and 0/MAX, every accessor at every index 0..len+1 and len+5; random partitions over a 19-point set on both ends and the middle of the alphabet and long random partitions (binary-search depth); try_from_list on all ordered pairs (thorough: triples) of intervals over the 7 points and on all permutations of random lists (overlapping, equal starts); push_seq with violated preconditions; merge on all ordered pairs of the 89 partitions over {0,1,2,MAX-1,MAX} + random pairs, merge_list on all permutations of random lists. A case counts as non-trivial when its partition(s) have at least one interval (lists: at least two elements); cases are distinct by operation line".into();
 
+    // ---- maximal families: the alphabet tiled by consecutive blocks of width w, given in a
+    // shuffled order (w = 1 is one singleton per code point: the largest pairwise disjoint family).
+    // Only a summary is printed: Ok/Err, number of intervals, empty_complement, the class of MAX_CHAR,
+    // of 0 and of a middle character, and whether interval i is the i-th block for sampled i.
+    for &w in &[1u32, 2, 3, 1000, 65536] {
+        let nblocks = (MAX_CHAR + 1 + w - 1) / w;
+        let mut v: Vec<CharSet> = (0..nblocks)
+            .map(|k| CharSet::range(k * w, std::cmp::min(k * w + w - 1, MAX_CHAR)))
+            .collect();
+        // deterministic shuffle: reverse halves
+        let half = v.len() / 2;
+        v[..half].reverse();
+        let r = guarded(|| match CharPartition::try_from_iter(v.iter().copied()) {
+            Err(e) => format!("Err:{:?}", e),
+            Ok(p) => {
+                let mid = (MAX_CHAR / 2 / w) * w;
+                let sample_ok = [0u32, 1, nblocks / 2, nblocks - 1]
+                    .iter()
+                    .all(|&i| (i as usize) < p.len() && p.get(i as usize) == (i * w, std::cmp::min(i * w + w - 1, MAX_CHAR)));
+                format!(
+                    "Ok:{}:{}:{}:{}:{}:{}",
+                    p.len(),
+                    p_bool(p.empty_complement()),
+                    cid_str(p.class_of_char(MAX_CHAR)),
+                    cid_str(p.class_of_char(0)),
+                    cid_str(p.class_of_char(mid)),
+                    p_bool(sample_ok)
+                )
+            }
+        });
+        t.op(&format!("cp tiling {}", w), &r, true);
+    }
+
     // ---- regression corpus (DESIGN.md §9 D2 and the crate's own examples)
     {
         let p = mk_push_seq(t, &[(10, 20), (30, 40)]).unwrap();
@@ -617,5 +650,31 @@ pub fn run(t: &mut Trace, rng: &mut Rng, thorough: bool) {
         for perm in permutations(&l) {
             merge_list(t, &perm);
         }
+    }
+    // long lists (5..40 partitions, each contributing a boundary the others do not imply), in the
+    // given order, reversed and rotated: tree-shaped or batched merges lose operands only beyond a
+    // dozen elements
+    let n_long = if thorough { 600 } else { 60 };
+    for _ in 0..n_long {
+        let n = rng.range(5, 40) as usize;
+        let base = rng.range(0, 50) as u32;
+        let l: Vec<CharPartition> = (0..n)
+            .map(|k| {
+                let a = base + 10 * k as u32 + if k % 2 == 1 { 2 } else { 0 };
+                let mut p = CharPartition::new();
+                p.push(a, a + 3);
+                if rng.chance(1, 4) {
+                    p.push(a + 5, a + 6);
+                }
+                p
+            })
+            .collect();
+        merge_list(t, &l);
+        let mut r = l.clone();
+        r.reverse();
+        merge_list(t, &r);
+        let mut rot = l.clone();
+        rot.rotate_left(n / 3);
+        merge_list(t, &rot);
     }
 }
